@@ -87,8 +87,9 @@ VARIABLES mtu,      \* [Bearers -> Mtus \cup {0}]  0 = bearer not open
           out,      \* [Bearers -> 0..255 \cup {None}]  request awaiting its response
           ind,      \* [Bearers -> Nat]  indications awaiting confirmation
           mtuReq,   \* [Bearers -> BOOLEAN]  Exchange MTU Response sent, new MTU takes effect next
-          may,      \* [Bearers -> 0..255 \cup {None}]  server-role PDU just received: the property is silent on
-                    \*   whether a server ignores it or refuses it like an unsupported request; either is accepted
+          may,      \* [Bearers -> 0..255 \cup {None}]  server-role PDU just received (a response, notification or
+                    \*   indication is not a request: like every other non-request it is owed nothing; the variable is
+                    \*   kept so that a rejection can name the PDU that was answered)
           err       \* set of clause names violated so far
 mvars == <<mtu, out, ind, mtuReq, may, err>>
 
@@ -97,7 +98,7 @@ SrvErr(b, op, len, rie) ==
     (IF len > mtu[b] THEN {"exceeds-mtu"} ELSE {})
     \cup (IF op \in Responses
           THEN (IF out[b] = None
-                THEN (IF may[b] # None /\ op = ErrRsp /\ rie = may[b] THEN {} ELSE {"unsolicited-response"})
+                THEN (IF may[b] # None /\ op = ErrRsp /\ rie = may[b] THEN {"reply-to-server-role-pdu"} ELSE {"unsolicited-response"})
                 ELSE IF ~Matches(op, rie, out[b]) THEN {"wrong-response"} ELSE {})
           ELSE IF op = IndOp THEN (IF ind[b] >= 1 THEN {"second-indication"} ELSE {})
           ELSE IF op \in Notifs THEN {}
@@ -206,8 +207,10 @@ Unsupported(b) ==
     /\ MServerPdu(b, ErrRsp, 5, task[b])
     /\ Finish(b)
 
-\* a server-role PDU arriving at a server may be refused like an unsupported request (or ignored)
+\* DEVIATION (negative control, enabled only by Deviations): a server-role PDU arriving at a server is refused
+\* like an unsupported request - a reply to something that is not a request
 RefuseServerPdu(b) ==
+    /\ "refuse_s2c" \in Deviations
     /\ may[b] # None /\ out[b] = None
     /\ MServerPdu(b, ErrRsp, 5, may[b])
     /\ UNCHANGED dvars
